@@ -145,7 +145,7 @@ func ringJob(name string, n int, thorough bool) *job {
 					shape = "wrapped"
 				}
 				res.class = "ring-take-wrong"
-				res.err = fmt.Sprintf("%s after %d adds (" + shape + "): Take returned %v, reference (last %d in order) %v; history %v", step, len(ref), got, n, want, path)
+				res.err = fmt.Sprintf("%s after %d adds ("+shape+"): Take returned %v, reference (last %d in order) %v; history %v", step, len(ref), got, n, want, path)
 			}
 			return ok
 		}
